@@ -125,17 +125,18 @@ theorem SSim.push {s₁ s₂ : St} (h : SSim P X s₁ s₂) (nb : Nat) (hd : P.D
     · rw [hb]; exact hd
     · exact h.stackDG b hb
   · rw [e1]
-    rcases h.tl with h' | h'
+    rcases h.tl with h' | ⟨hsp, h'⟩
     · exact .inl h'
     · right
+      refine ⟨hsp, ?_⟩
       cases hs : s₁.stack with
       | nil => rw [hs] at h'; simp at h'
       | cons x xs => rw [hs] at h'; simpa [List.getLast?_cons_cons] using h'
-  · rw [e1]; intro hb
+  · rw [e1]; intro hsp hb
     simp only [List.mem_cons] at hb
     rcases hb with hb | hb
     · exact absurd hb.symm hne
-    · exact h.bxs hb
+    · exact h.bxs hsp hb
   · rw [e1]
     rw [List.pairwise_cons]
     exact ⟨fun y _ hx => absurd hx ht, h.ss⟩
@@ -241,10 +242,10 @@ theorem SSim.pop {s₁ s₂ : St} (h : SSim P X s₁ s₂) {b c : Nat} {rest : L
   · rw [e1, f1]; simp
   · rw [e1]; intro x hx; exact h.stackDG x (by rw [hst]; simp [List.mem_cons] at hx ⊢; exact .inr hx)
   · rw [e1]
-    rcases h.tl with h' | h'
+    rcases h.tl with h' | ⟨hsp, h'⟩
     · exact .inl h'
-    · right; rw [hst, List.getLast?_cons_cons] at h'; exact h'
-  · rw [e1]; intro hb; exact h.bxs (by rw [hst]; simp [List.mem_cons] at hb ⊢; exact .inr hb)
+    · right; rw [hst, List.getLast?_cons_cons] at h'; exact ⟨hsp, h'⟩
+  · rw [e1]; intro hsp hb; exact h.bxs hsp (by rw [hst]; simp [List.mem_cons] at hb ⊢; exact .inr hb)
   · rw [e1]
     have := h.ss
     rw [hst, List.pairwise_cons] at this
